@@ -1,6 +1,8 @@
 package main
 
 import (
+	"sort"
+	"strconv"
 	"fmt"
 	"go/ast"
 	"go/token"
@@ -1096,11 +1098,46 @@ func (x *Exec) ownCtx(fr *Frame, st *State, body bool) *EvalCtx {
 			oldv: nil})
 	}
 	if body {
+		// several locals may share a source name (shadowing, one `i` per switch
+		// case): `name`, `name#2`, ...  The name denotes the one that is live in
+		// this state - allocated on the path that leads here - and, among those,
+		// the most recently declared.
+		type cand struct {
+			k int
+			a *ssa.Alloc
+		}
+		groups := map[string][]cand{}
 		for n, v := range fr.names {
 			a, ok := v.(*ssa.Alloc)
 			if !ok {
 				continue
 			}
+			base, k := n, 1
+			if i := strings.LastIndex(n, "#"); i > 0 {
+				if kk, err := strconv.Atoi(n[i+1:]); err == nil {
+					base, k = n[:i], kk
+				}
+			}
+			groups[base] = append(groups[base], cand{k, a})
+		}
+		chosen := map[string]*ssa.Alloc{}
+		for base, cs := range groups {
+			sort.Slice(cs, func(i, j int) bool { return cs[i].k > cs[j].k })
+			for _, c := range cs {
+				lv, has := fr.regs[c.a]
+				if !has {
+					continue
+				}
+				if lv.Loc != nil && lv.Loc.kind == lCell {
+					if _, live := st.cells[lv.Loc.cell]; !live {
+						continue
+					}
+				}
+				chosen[base] = c.a
+				break
+			}
+		}
+		for n, a := range chosen {
 			lv, has := fr.regs[a]
 			if !has {
 				continue // not yet allocated on this path
